@@ -1009,11 +1009,24 @@ func (ex *Exec) instr(fr *Frame, ins ssa.Instruction, pred *ssa.BasicBlock, st *
 			return true
 		}
 		ss := vc.sorts.SortOf(pt)
+		if _, known := vc.sorts.structs[ss]; !known {
+			// field of an opaque (library) struct: a scratch location of its own; writes are not tracked, reads are arbitrary
+			ft := stt.Field(x.Field).Type()
+			vc.cellCtr++
+			c := &Cell{id: vc.cellCtr, frame: fr.id, name: "opaquefield", typ: ft, sort: vc.sorts.SortOf(ft)}
+			st.cells[c] = tv(vc.fresh("opaquefield", c.sort))
+			fr.vals[x] = Val{K: VPtr, P: &Ptr{Kind: PCell, Cell: c, Typ: ft}}
+			return true
+		}
 		fr.vals[x] = Val{K: VPtr, P: p.extend(Step{IsField: true, Field: x.Field, FieldName: stt.Field(x.Field).Name(), StructSort: ss}, stt.Field(x.Field).Type())}
 	case *ssa.Field:
 		base := ex.toTerm(st, ex.val(fr, st, x.X), x.X.Type())
 		stt := x.X.Type().Underlying().(*types.Struct)
 		ss := vc.sorts.SortOf(x.X.Type())
+		if _, known := vc.sorts.structs[ss]; !known {
+			fr.vals[x] = tv(vc.fresh("opaquefield", vc.sorts.SortOf(stt.Field(x.Field).Type())))
+			return true
+		}
 		fr.vals[x] = tv(Term{vc.sel(ss, stt.Field(x.Field).Name(), base.S), vc.sorts.SortOf(stt.Field(x.Field).Type())})
 	case *ssa.IndexAddr:
 		base := ex.val(fr, st, x.X)
